@@ -67,3 +67,10 @@ check("C20", "exploration", "exhaustive enumeration of all strings up to length 
 for e in ENGINES:
     if e["name"] == "evid":
         e["serves_properties"] = sorted(set(e["serves_properties"] + ["C20"]))
+
+check("C13", "exploration", "exhaustive enumeration of all strings up to length n over a separator/alphanumeric/control alphabet plus structured limit families, through both name parsers, the digest parsers and every path builder, incl. real-directory case-variant lookups",
+      "Every string of <= n symbols over a 17-symbol alphabet (separators, dots, backslash, NUL, newline, multi-byte, invalid byte) and structured families around the length limits, scheme/@digest forms and digest shapes is fed to model.ParseName*/Name.*, names.Parse, ParseModelPath/GetManifestPath, GetBlobsPath, blob.ParseDigest/GetFile/nameToPath/manifestPath, Registry.parseNameExtended; oracle: accepted => path confined at the fixed depth with no traversal component, print/parse round trip, cross-parser agreement on fully qualified names, case variants address the same stored model (checked on real directories built with WriteManifest / DiskCache.Link, one- and two-manifest stores), no panics.",
+      "Go toolchain; 'accepted' for the names parser means fully qualified after the default mask; two-manifest legacy lookups are repeated 16x because Go map order is not owned in that path.", "DESIGN.md 3/C13", "evid")
+for e in ENGINES:
+    if e["name"] == "evid":
+        e["serves_properties"] = sorted(set(e["serves_properties"] + ["C13"]))
